@@ -221,6 +221,19 @@ def run (ctx):
              "expiry and descriptor registration exclude each other within one scan step" if not both else
              "within one step of the scan both `%s` and `%s` can run for the same task: it is resumed as expired and, if a descriptor is ready, returned a second time (del tasks[t] then raises KeyError and the hub dies)" % (e_.text(30), both[0].text(30)),
              (mod, e_.ast), 'D4')
+  # the waiter with the nearest deadline is resumed when select comes back empty - so select must have been given that deadline, not
+  # something shorter: the default wait replaces the timeout only when no waiter has a deadline at all
+  tstores = [n for n in g2.nodes if n.kind == 'stmt' and isinstance(n.ast, ast.Assign) and len(n.ast.targets) == 1 and norm(n.ast.targets[0]) == 'timeout'
+             and isinstance(n.ast.value, (ast.Name, ast.Attribute, ast.Constant)) and norm(n.ast.value) not in ('None', 'tt')]
+  none_false = [((lambda e: isinstance(e, ast.Compare) and norm(e.left) == 'timeout' and isinstance(e.ops[0], ast.Is) and norm(e.comparators[0]) == 'None'), False),
+                ((lambda e: isinstance(e, ast.Compare) and norm(e.left) == 'timeout' and isinstance(e.ops[0], ast.IsNot) and norm(e.comparators[0]) == 'None'), True)]
+  if tstores:
+    r_nf = q.reach_under(repo, mod, g2, q.Env({}, none_false), hub)
+    for n in tstores:
+      if not any('CYCLE' in norm(x) or isinstance(x, ast.Constant) for x in ast.walk(n.ast.value)): continue
+      ctx.ob('R-DOM', sel, "the default wait replaces the select timeout only when no waiter has a deadline (`%s`)" % n.text(40), n not in r_nf, "only under `timeout is None`" if n not in r_nf else
+             "`%s` is reachable although a waiter's deadline was chosen as the timeout: select() comes back empty after the shorter default wait and the nearest-deadline waiter is resumed as if its time had come - "
+             "a task that asked to sleep longer than the default wait is resumed early whenever the hub is otherwise idle" % n.text(40), (mod, n.ast), 'D4')
   # timeout dispatch only for an unmodified empty select result
   selcall = [n for n in g2.nodes if isinstance(n.ast, ast.Assign) and isinstance(n.ast.value, ast.Call) and '_select_func' in norm(n.ast.value.func)]
   if selcall:
@@ -289,6 +302,24 @@ def run (ctx):
   es_ = ec_.methods.get('select') if ec_ is not None else None
   if es_ is not None:
     ctx.analysed(es_)
+    # the second stage, by evaluation: applying the pending changes {5: 3, 6: 1, 7: 0} to the registered masks {5: 1, 7: 4} leaves
+    # {5: 3, 6: 1} - what the object remembers as registered is what epoll was last told
+    ge_ = q.cfg_of(es_)
+    loops_ = [(s_, h_, a_) for (s_, h_, a_) in ge_.loop_nodes if isinstance(s_, ast.For) and 'modify' in norm(s_.iter)]
+    if loops_:
+      s_, h_, a_ = loops_[0]
+      def hook_e (call, env=None): return (True, None) if isinstance(call.func, ast.Attribute) and 'epoll' in norm(call.func.value) else (False, None)
+      res_ = set()
+      for p_, e_ in q.paths_under(repo, em_, ge_, q.Env({'modify': {5: 3, 6: 1, 7: 0}, 'self.registered': {5: 1, 7: 4}}, [], hook_e), h_, [a_, ge_.exit, ge_.raise_exit], ec_, limit=60, track_start=True):
+        r_ = e_.exact.get('self.registered')
+        res_.add(tuple(sorted(r_.items())) if isinstance(r_, dict) and p_[-1] is a_ else '?')
+      if not res_ or '?' in res_:
+        ctx.undecided('R-AGREE', es_, "after the pending changes were applied the remembered masks are the ones epoll was given", "apply loop not evaluable on the sample", (em_, s_), 'D4')
+      else:
+        good = res_ == {((5, 3), (6, 1))}
+        ctx.ob('R-AGREE', es_, "after the pending changes were applied the remembered masks are the ones epoll was given", good, "{5: 1, 7: 4} + {5: 3, 6: 1, 7: 0} -> {5: 3, 6: 1}" if good else
+               "applying the changes {5: 3, 6: 1, 7: 0} to the registered masks {5: 1, 7: 4} leaves %s, expected {5: 3, 6: 1}: the next call computes its changes from a stale mask - a descriptor a task still waits on is unregistered "
+               "(the task is never resumed), or epoll reports it for a list it has left" % [dict(x_) for x_ in sorted(res_)], (em_, s_), 'D4')
     mt_ = q.nested_defs(es_.node).get('modify_table')
     if mt_ is not None:
       mtn = getattr(mt_, 'node', mt_)
